@@ -186,8 +186,6 @@ func c15Payload(events []int, i int) interface{} {
 	return Ev{N: i}
 }
 
-const c15CtxErrJSON = `{"data":null,"errors":[{"message":"context canceled","locations":[]}]}`
-
 func (c15) Run(t TestingT, scn json.RawMessage, tape *Tape) *Outcome {
 	var sc C15Scn
 	if err := json.Unmarshal(scn, &sc); err != nil {
@@ -457,7 +455,7 @@ func (c15) Run(t TestingT, scn json.RawMessage, tape *Tape) *Outcome {
 				// produced after it (context error or a field error), not judged
 				continue
 			}
-			if idxCancel >= 0 && gotIdx[k] > idxCancel && r == c15CtxErrJSON {
+			if idxCancel >= 0 && gotIdx[k] > idxCancel && isExactlyError(r, "context canceled") {
 				o.Probe("ctx-error-result-after-cancel")
 				continue
 			}
